@@ -27,6 +27,11 @@ pub struct DataBatch {
 pub struct Gen {
     /// Cell<T> has no Introspect impl, so it cannot be a field of a derived def
     pub allow_cell: bool,
+    /// only types whose encoding the documentation describes (no private leaf encodings,
+    /// no unordered containers) — used for evolution histories
+    pub core_only: bool,
+    /// generated types may only refer to definitions with an index below this limit
+    pub def_limit: usize,
     pub rng: Rng,
     pub uni: Universe,
     pub stats: BTreeMap<String, usize>,
@@ -53,13 +58,15 @@ impl Gen {
     pub fn new(seed: u64, module: &str, version: u32, name_prefix: &str) -> Gen {
         Gen {
             allow_cell: false,
+            core_only: false,
+            def_limit: usize::MAX,
             rng: Rng::new(seed),
-            uni: Universe { version, defs: vec![], module: module.to_string() },
+            uni: Universe { version, defs: vec![], module: module.to_string(), defs_have_no_caps: false },
             stats: BTreeMap::new(),
             prefix: name_prefix.to_string(),
         }
     }
-    fn stat(&mut self, k: &str) {
+    pub fn stat(&mut self, k: &str) {
         *self.stats.entry(k.to_string()).or_insert(0) += 1;
     }
 
@@ -104,7 +111,7 @@ impl Gen {
             }
         }
         c.push((7, 12)); // Leaf
-        if !self.uni.defs.is_empty() {
+        if self.uni.defs.len().min(self.def_limit) > 0 {
             c.push((18, 13)); // Def
         }
         for _attempt in 0..50 {
@@ -128,7 +135,10 @@ impl Gen {
                         (1, SeqKind::ArrayVec(*self.rng.pick(&[0usize, 1, 3, 8]))),
                     ];
                     let w: Vec<usize> = kinds.iter().map(|x| x.0).collect();
-                    let k = kinds[self.rng.weighted(&w)].1;
+                    let mut k = kinds[self.rng.weighted(&w)].1;
+                    if self.core_only && k == SeqKind::BinaryHeap {
+                        k = SeqKind::Vec;
+                    }
                     let mut en = Caps { default: false, copy: false, key: need.key };
                     if k == SeqKind::BinaryHeap {
                         en.key = true;
@@ -136,11 +146,17 @@ impl Gen {
                     Ty::Seq(k, Box::new(self.gen_ty(depth - 1, en)))
                 }
                 6 => {
-                    let k = *self.rng.pick(&[SetKind::Hash, SetKind::BTree, SetKind::BTree, SetKind::Index]);
+                    let mut k = *self.rng.pick(&[SetKind::Hash, SetKind::BTree, SetKind::BTree, SetKind::Index]);
+                    if self.core_only && k == SetKind::Hash {
+                        k = SetKind::BTree;
+                    }
                     Ty::Set(k, Box::new(self.gen_ty(depth - 1, Caps { key: true, copy: false, default: false })))
                 }
                 7 => {
-                    let k = *self.rng.pick(&[MapKind::Hash, MapKind::BTree, MapKind::BTree, MapKind::Index]);
+                    let mut k = *self.rng.pick(&[MapKind::Hash, MapKind::BTree, MapKind::BTree, MapKind::Index]);
+                    if self.core_only && k == MapKind::Hash {
+                        k = MapKind::BTree;
+                    }
                     let kk = self.gen_ty(depth - 1, Caps { key: true, copy: false, default: false });
                     let vv = self.gen_ty(depth - 1, Caps { key: need.key, copy: false, default: false });
                     Ty::Map(k, Box::new(kk), Box::new(vv))
@@ -208,13 +224,16 @@ impl Gen {
                         Leaf::DateTimeUtc,
                     ];
                     let mut l = *self.rng.pick(&leaves);
+                    if self.core_only {
+                        l = *self.rng.pick(&[Leaf::ArcStr, Leaf::ArrayString(16), Leaf::Atomic(atom), Leaf::Phantom]);
+                    }
                     if l == Leaf::IoError && !self.allow_cell {
                         l = Leaf::Duration; // io::Error has no Introspect impl either
                     }
                     Ty::Leaf(l)
                 }
                 13 => {
-                    let i = self.rng.below(self.uni.defs.len());
+                    let i = self.rng.below(self.uni.defs.len().min(self.def_limit));
                     let d = &self.uni.defs[i];
                     let np = d.params;
                     // generic arguments: small closed types meeting the need (conservatively)
@@ -230,11 +249,11 @@ impl Gen {
         Ty::Prim(Prim::U8)
     }
 
-    fn name(&mut self, kind: &str) -> String {
+    pub fn name(&mut self, kind: &str) -> String {
         format!("{}{}{}", self.prefix, kind, self.uni.defs.len())
     }
 
-    fn push(&mut self, d: Def) -> usize {
+    pub fn push(&mut self, d: Def) -> usize {
         self.uni.defs.push(d);
         self.uni.defs.len() - 1
     }
